@@ -20,6 +20,22 @@ def subsets(xs):
         yield from itt.combinations(xs, r)
 
 
+def form(conds, k):
+    """The same conditioning set in the container types the signature (Iterable[Variable] | None) admits."""
+    k %= 6
+    if k == 0:
+        return list(conds)
+    if k == 1:
+        return tuple(conds)
+    if k == 2:
+        return frozenset(conds)
+    if k == 3:
+        return iter(list(conds))          # one-shot iterator
+    if k == 4:
+        return (x for x in list(conds))   # generator
+    return None if not conds else set(conds)
+
+
 def key(a, b, c):
     return (min(a, b), max(a, b), tuple(sorted(c)))
 
@@ -65,7 +81,7 @@ def run_dsep(rec, order, fails, stats):
                 if edge is not None:
                     base["after_adding"] = edge
                 try:
-                    j = are_d_separated(graph, var(a), var(b), conditions=conds)
+                    j = are_d_separated(graph, var(a), var(b), conditions=form(conds, stats["calls"]))
                 except Exception as exc:  # noqa: BLE001
                     fails.append({**base, "clause": "raised", "exc": type(exc).__name__, "msg": str(exc)[:200]})
                     continue
@@ -113,8 +129,8 @@ def run_sigma_on(graph, rec, edge, order, fails, stats):
             stats["calls"] += 2
             conds = [var(i) for i in c]
             try:
-                ab = bool(are_sigma_separated(graph, var(a), var(b), conditions=conds))
-                ba = bool(are_sigma_separated(graph, var(b), var(a), conditions=list(reversed(conds))))
+                ab = bool(are_sigma_separated(graph, var(a), var(b), conditions=form(conds, stats["calls"] // 2)))
+                ba = bool(are_sigma_separated(graph, var(b), var(a), conditions=form(list(reversed(conds)), stats["calls"] // 2 + 1)))
             except Exception as exc:  # noqa: BLE001
                 fails.append({"g": g, "a": a, "b": b, "c": list(c), "order": order, "clause": "raised",
                               "exc": type(exc).__name__, "msg": str(exc)[:200]})
@@ -138,6 +154,8 @@ def run_ci(rec, order, fails, stats):
     from y0.algorithm import conditional_independencies as ci
 
     graph = None
+    if len(rec["g"]["n"]) >= 7 and order > 0:
+        return   # 7-8 node catalogue graphs: the enumeration is exponential, one insertion order only
     for cur, edge in history(rec, order):
         if graph is None:
             graph = build_graph(cur["g"], order)
@@ -152,7 +170,7 @@ def run_ci_on(ci, graph, rec, edge, order, fails, stats):
     sep = {(t[0], t[1], tuple(sorted(t[2]))) for t in rec["sep"]}
     minsize = {(t[0], t[1]): t[2] for t in rec["min"]}
     n = len(g["n"])
-    for k in [None, 0, 1, 2, 3, n, n + 1]:
+    for k in ([None, 0, 1, 2, 3, n, n + 1] if n < 7 else [None, 2, 3]):
         for pname, policy in (("topological", None), ("len_lex", ci._len_lex)):
             stats["calls"] += 1
             base = {"g": g, "k": k, "policy": pname, "order": order}
